@@ -23,16 +23,44 @@ impl.load()
 from vivarium import Component  # noqa: E402
 from vivarium.manager import Manager  # noqa: E402
 
-STATE: dict = {}
+STATE: dict = {}                 # the state of the simulation that is being built / driven right now
 _CLASS_CACHE: dict = {}          # canonical defaults -> class; deliberately process-wide (class-level state must be able to leak)
 
 
 def reset(**kw):
-    STATE.clear()
-    STATE.update(kw)
+    """a NEW state object for the next simulation; every probe keeps a reference to the state it was created under, so
+    several simulations can be alive at once (and be driven alternately, see `use`) without sharing anything here"""
+    global STATE
+    STATE = dict(kw)
     STATE.setdefault("log", [])
     STATE.setdefault("memo", {})
     STATE.setdefault("handles", [])
+    STATE.setdefault("dicts", [])
+    return STATE
+
+
+def use(state):
+    """make `state` the current one (before building objects for / constructing the simulation it belongs to)"""
+    global STATE
+    STATE = state
+    return STATE
+
+
+_BY_CONFIGURATION: dict = {}     # id(configuration tree of a simulation) -> (tree, state of that simulation)
+
+
+def attach(configuration, state):
+    """tell the probes which state belongs to the simulation whose builder hands out `configuration`: an object may be
+    reused in a later simulation, or two simulations may be alive at once – what an object logs goes to the simulation that
+    is setting it up"""
+    if len(_BY_CONFIGURATION) > 64:
+        _BY_CONFIGURATION.clear()
+    _BY_CONFIGURATION[id(configuration)] = (configuration, state)
+
+
+def state_of(builder, default):
+    hit = _BY_CONFIGURATION.get(id(builder.configuration))
+    return hit[1] if hit is not None and hit[0] is builder.configuration else default
 
 
 def _nest(pairs):
@@ -52,8 +80,10 @@ class Probe(Component):
     def __init__(self, node_id: str):
         super().__init__()
         self.node_id = str(node_id)
+        self.st = STATE
         self.spec = STATE["specs"][self.node_id]
         self._children = None
+        self._same = None
         self.accesses = 0
 
     @property
@@ -62,10 +92,20 @@ class Probe(Component):
 
     @property
     def configuration_defaults(self):
+        if self.spec.get("defs") == "property_same":          # the SAME dict object on every access
+            if self._same is None:
+                self._same = _nest(self.spec["d"])
+                self.st["dicts"].append([self.name, self._same, _nest(self.spec["d"])])
+            return self._same
         return _nest(self.spec["d"])
 
     def _make_children(self):
-        return [build(STATE["specs"][str(c)], fresh=self.spec.get("sub") == "fresh") for c in self.spec["c"]]
+        return [build(self.st["specs"][str(c)], fresh=self.spec.get("sub") == "fresh", st=self.st) for c in self.spec["c"]]
+
+    def children_list(self):
+        if self._children is None:
+            self._children = self._make_children()
+        return self._children
 
     @property
     def sub_components(self):
@@ -74,10 +114,10 @@ class Probe(Component):
         holes = self.spec.get("holes") or []
         if kind == "fresh":                       # created lazily, NEW objects on every access
             seq = self._make_children()
+        elif self.spec.get("share") is not None:  # the very same LIST OBJECT another parent returns
+            seq = build(self.st["specs"][str(self.spec["share"])], st=self.st).children_list()
         else:
-            if self._children is None:
-                self._children = self._make_children()
-            seq = self._children
+            seq = self.children_list()
         if holes:                                 # None / empty list / empty tuple among the sub-components
             seq = with_holes(seq, holes)
         if kind == "tuple":
@@ -89,7 +129,7 @@ class Probe(Component):
         return seq
 
     def setup(self, builder):
-        st = STATE
+        st = state_of(builder, self.st)
         seen = [st["read"](builder.configuration, p) for p in st["probes"]]
         tried = [[self.name, p, st["write"](builder.configuration, p, v, how)] for n, p, v, how in st["attempts"] if n == self.name]
         st["log"].append(["comp", self.name, seen, tried])
@@ -209,8 +249,8 @@ def class_of(spec):
 
 def _observe(obj):
     """library components do not log: wrap the bound `setup` of the object and of everything below it"""
-    def w(builder, _orig=obj.setup, _n=obj.name):
-        st = STATE
+    def w(builder, _orig=obj.setup, _n=obj.name, _st=STATE):
+        st = state_of(builder, _st)
         st["log"].append(["comp", _n, [st["read"](builder.configuration, p) for p in st["probes"]], []])
         return _orig(builder)
     obj.setup = w
@@ -242,15 +282,21 @@ def build_machine(spec):
     return m
 
 
-def build(spec, fresh=False):
+def build(spec, fresh=False, st=None):
     """object for a node; the same id gives the same object unless the parent creates its children afresh"""
-    memo = STATE["memo"]
-    make = (lambda: build_machine(spec)) if spec.get("lib") else (lambda: class_of(spec)(str(spec["id"])))
-    if fresh:
-        return make()
-    if spec["id"] not in memo:
-        memo[spec["id"]] = make()
-    return memo[spec["id"]]
+    global STATE
+    st = STATE if st is None else st
+    memo = st["memo"]
+    if not fresh and spec["id"] in memo:
+        return memo[spec["id"]]
+    prev, STATE = STATE, st                       # objects are created under the state of THEIR simulation
+    try:
+        obj = build_machine(spec) if spec.get("lib") else class_of(spec)(str(spec["id"]))
+    finally:
+        STATE = prev
+    if not fresh:
+        memo[spec["id"]] = obj
+    return obj
 
 
 def spec_string(spec) -> str:
@@ -261,16 +307,19 @@ def spec_string(spec) -> str:
 class ProbeManager(Manager):
     """an optional plugin (plugin configuration `optional:`): a manager with a name and defaults of the harness's choice"""
 
+    def __init__(self):
+        self.st = STATE                           # created by the plugin manager inside the constructor of its simulation
+
     @property
     def name(self):
-        return STATE.get("opt_manager", {}).get("n", "probe_manager")
+        return self.st.get("opt_manager", {}).get("n", "probe_manager")
 
     @property
     def configuration_defaults(self):
-        return _nest(STATE.get("opt_manager", {}).get("d", []))
+        return _nest(self.st.get("opt_manager", {}).get("d", []))
 
     def setup(self, builder):
-        st = STATE
+        st = state_of(builder, self.st)
         seen = [st["read"](builder.configuration, p) for p in st["probes"]]
         tried = [[self.name, p, st["write"](builder.configuration, p, v, how)] for n, p, v, how in st["attempts"] if n == self.name]
         st["log"].append(["optmgr", self.name, seen, tried])
